@@ -73,7 +73,8 @@ def dimOp (t : Array String) : Option String :=
     let rows := parseHex ((kw t "rows").getD "0")
     let cols := parseHex ((kw t "cols").getD "0")
     let w := parseHex ((kw t "w").getD "0")
-    let need := if w = 0 then (rows * cols + 7) / 8 else rows * cols * w
+    let backed := if (kw t "tall").isSome ∧ (kw t "tall").getD "0" ≠ "0" then 4 else rows
+    let need := if w = 0 then (backed * cols + 7) / 8 else backed * cols * w
     some (if rows < 2 ∨ cols < 2 ∨ need > 2 ^ 36 then "bad-dim" else "far=done")
   | _ => none
 
